@@ -276,7 +276,181 @@ theorem getter_idempotent (x : PyFrame δ) (g : Op δ) (hg : g.isGetter = true) 
   | setData d => simp [Op.isGetter] at hg
   | setMessage m => simp [Op.isGetter] at hg
 
+/-! #### header fields re-assigned between serialisations -/
+
+theorem setHdr_payload_of_ne (x : PyFrame δ) (f : HdrField) (v : Int) (hf : f ≠ .sender) :
+    payloadOf c (setHdr x f v) = payloadOf c x := by
+  cases f <;> first | rfl | exact absurd rfl hf
+
+theorem setHdr_payload_senderFree (hc : senderFree c) (x : PyFrame δ) (f : HdrField) (v : Int) :
+    payloadOf c (setHdr x f v) = payloadOf c x := by
+  cases f
+  · rfl
+  · simp only [setHdr, payloadOf]; cases x.message <;> simp [hc v x.sender]
+  · rfl
+  · rfl
+
+/-- for a codec that does not look at the sender, `lastPayload` only looks at the payload of the
+starting state -/
+theorem lastPayload_congr_senderFree (hc : senderFree c) (x y : PyFrame δ) (ops : List (Op δ))
+    (hp : payloadOf c x = payloadOf c y) : lastPayload c x ops = lastPayload c y ops := by
+  induction ops generalizing x y with
+  | nil => simpa [lastPayload] using hp
+  | cons op ops ih =>
+    cases op with
+    | setData d => simp only [lastPayload]; exact ih _ _ (by simp [payloadOf, hc x.sender y.sender])
+    | setMessage m => simp only [lastPayload]; exact ih _ _ (by simp [payloadOf])
+    | getData => simp only [lastPayload]; exact ih _ _ hp
+    | getMessage => simp only [lastPayload]; exact ih _ _ hp
+    | bytes => simp only [lastPayload]; exact ih _ _ hp
+    | len => simp only [lastPayload]; exact ih _ _ hp
+
+/-- one content operation in front of a sequence -/
+theorem lastPayload_step (x : PyFrame δ) (o : Op δ) (ops : List (Op δ)) :
+    lastPayload c (step c x o).1 ops = lastPayload c x (o :: ops) := by
+  have hh := (step_header c x o).2.2.1
+  cases o with
+  | setData d => simp only [lastPayload, step]
+  | setMessage m => simp only [lastPayload, step]
+  | getData => simp only [lastPayload]; exact lastPayload_congr c _ _ ops (getter_keeps_payload c x _ rfl) hh
+  | getMessage => simp only [lastPayload]; exact lastPayload_congr c _ _ ops (getter_keeps_payload c x _ rfl) hh
+  | bytes => simp only [lastPayload]; exact lastPayload_congr c _ _ ops (getter_keeps_payload c x _ rfl) hh
+  | len => simp only [lastPayload]; exact lastPayload_congr c _ _ ops (getter_keeps_payload c x _ rfl) hh
+
+/-- the header of the object after ANY sequence is the constructed header with the assignments
+applied in order (the last assignment of a field wins); no other operation touches it -/
+theorem runH_header (x : PyFrame δ) (ops : List (HOp δ)) :
+    let y := (runH c x ops).1
+    let h := hdrAfter x ops
+    y.cls = h.cls ∧ y.rcpt = h.rcpt ∧ y.sender = h.sender ∧ y.etype = h.etype ∧ y.ever = h.ever := by
+  induction ops generalizing x with
+  | nil => simp [runH, hdrAfter]
+  | cons o ops ih =>
+    cases o with
+    | hdr f v => simpa [runH, stepH, hdrAfter] using ih (setHdr x f v)
+    | op o =>
+      have h1 := step_header c x o
+      have h2 := ih (step c x o).1
+      simp only [runH, stepH, hdrAfter] at h2 ⊢
+      -- `hdrAfter` only reads the header of its starting state
+      have hcongr : ∀ (a b : PyFrame δ) (l : List (HOp δ)),
+          (a.cls = b.cls ∧ a.rcpt = b.rcpt ∧ a.sender = b.sender ∧ a.etype = b.etype ∧ a.ever = b.ever) →
+          ((hdrAfter a l).cls = (hdrAfter b l).cls ∧ (hdrAfter a l).rcpt = (hdrAfter b l).rcpt ∧
+           (hdrAfter a l).sender = (hdrAfter b l).sender ∧ (hdrAfter a l).etype = (hdrAfter b l).etype ∧
+           (hdrAfter a l).ever = (hdrAfter b l).ever) := by
+        intro a b l
+        induction l generalizing a b with
+        | nil => intro h; simpa [hdrAfter] using h
+        | cons o l ihl =>
+          intro h
+          cases o with
+          | op _ => simpa [hdrAfter] using ihl a b h
+          | hdr f v =>
+            simp only [hdrAfter]
+            apply ihl
+            cases f <;> simp [setHdr, h.1, h.2.1, h.2.2.1, h.2.2.2.1, h.2.2.2.2]
+      have hc' := hcongr (step c x o).1 x ops h1
+      exact ⟨h2.1.trans hc'.1, h2.2.1.trans hc'.2.1, h2.2.2.1.trans hc'.2.2.1, h2.2.2.2.1.trans hc'.2.2.2.1,
+        h2.2.2.2.2.trans hc'.2.2.2.2⟩
+
+/-- the payload the object stands for after ANY sequence with header assignments: that of the
+last content-defining operation -- assignments to the header do not change it (sender-free codec) -/
+theorem runH_payload (hc : senderFree c) (x : PyFrame δ) (ops : List (HOp δ)) :
+    payloadOf c (runH c x ops).1 = lastPayload c x (contentOps ops) := by
+  induction ops generalizing x with
+  | nil => simp [runH, contentOps, lastPayload]
+  | cons o ops ih =>
+    cases o with
+    | op o =>
+      simp only [runH, stepH, contentOps]
+      rw [ih, lastPayload_step]
+    | hdr f v =>
+      simp only [runH, stepH, contentOps]
+      rw [ih]
+      exact lastPayload_congr_senderFree c hc _ _ _ (setHdr_payload_senderFree c hc x f v)
+
+/-- **bytes_reflect_last_content, header fields included**: after ANY sequence of reads, content
+assignments and assignments to recipient / sender / econet type / econet version on one frame
+object, `bytes` is the envelope of the LAST assigned header values around the payload of the
+LAST content-defining operation.  A serialisation memoised across a header assignment is
+impossible.  (Sender-free codecs: every kind but the program-version response, see below.) -/
+theorem bytes_reflect_last_content_hdr (hc : senderFree c) (x : PyFrame δ) (ops : List (HOp δ)) :
+    (step c (runH c x ops).1 .bytes).2 = bytesOut (hdrAfter x ops) (lastPayload c x (contentOps ops)) := by
+  rw [bytes_of_state, runH_payload c hc]
+  exact bytesOut_congr _ _ _ (runH_header c x ops)
+
+/-- without assignments to the sender the same holds for EVERY codec -/
+theorem bytes_reflect_last_content_hdr_noSender (x : PyFrame δ) (ops : List (HOp δ))
+    (hns : ∀ v, HOp.hdr .sender v ∉ ops) :
+    (step c (runH c x ops).1 .bytes).2 = bytesOut (hdrAfter x ops) (lastPayload c x (contentOps ops)) := by
+  rw [bytes_of_state]
+  have hp : payloadOf c (runH c x ops).1 = lastPayload c x (contentOps ops) := by
+    induction ops generalizing x with
+    | nil => simp [runH, contentOps, lastPayload]
+    | cons o ops ih =>
+      have hns' : ∀ v, HOp.hdr .sender v ∉ ops := fun v h => hns v (List.mem_cons_of_mem _ h)
+      cases o with
+      | op o =>
+        simp only [runH, stepH, contentOps]
+        rw [ih _ hns', lastPayload_step]
+      | hdr f v =>
+        simp only [runH, stepH, contentOps]
+        rw [ih _ hns']
+        have hf : f ≠ .sender := by
+          intro h; subst h; exact hns v (List.mem_cons_self)
+        refine lastPayload_congr c _ _ _ (setHdr_payload_of_ne c x f v hf) ?_
+        cases f <;> first | rfl | exact absurd rfl hf
+  rw [hp]
+  exact bytesOut_congr _ _ _ (runH_header c x ops)
+
+/-- what a `bytes` call returned, as the argument of the writer model -/
+def bytesResult : Out δ → Except ObjErr (List Byte)
+  | .bytes b => .ok b
+  | .raised e => .error e
+  | _ => .error .struct
+
+/-- **written_reflects_last_content**: handing ONE frame object to `FrameWriter.write` again and
+again, with reads, content assignments and header assignments in between (earlier writes are
+`bytes` reads: they leave nothing behind but the filled message cache), puts on the transport,
+at every write, the envelope of the header values and the payload the object has AT THAT WRITE --
+or nothing at all when serialising raises.  A writer that remembers an earlier serialisation of
+the same object is impossible. -/
+theorem written_reflects_last_content (hc : senderFree c) (x : PyFrame δ) (ops : List (HOp δ)) (d : Option Writer.Exc) :
+    Writer.write (bytesResult (step c (runH c x ops).1 .bytes).2) d
+      = Writer.write (bytesResult (bytesOut (hdrAfter x ops) (lastPayload c x (contentOps ops)))) d := by
+  rw [bytes_reflect_last_content_hdr c hc]
+
 end object
+
+/-- the same object written, re-addressed, written again: two different frames reach the transport -/
+example :
+    let c := codecOf (0, 0, 0) 51
+    let x := construct 51 69 86 48 5 none (some [("index", .int 1), ("value", .int 2)])
+    (Writer.write (bytesResult (step c (runH c x [.op .bytes, .hdr .rcpt 0]).1 .bytes).2) none).1
+      = [.write (encode ⟨51, 0, 86, 48, 5, [1, 2]⟩), .drain] := by decide
+
+/-- every modelled kind except the program-version response has a sender-free codec -/
+theorem codecOf_senderFree (sw : Nat × Nat × Nat) (code : Nat) (h : code ≠ 192) :
+    senderFree (codecOf sw code) := by
+  intro s s' d
+  simp only [codecOf, createFor, h, if_false]
+
+/-- the exception, stated: a program-version response whose message was produced (cached) under
+one sender keeps that payload when the sender attribute is re-assigned -- the header shows the
+new sender, the payload still carries the old one.  (pyplumio: ProgramVersionStructure packs
+`self.frame.sender` into the message; `_message` is not invalidated by `frame.sender = …`.) -/
+example :
+    (runH (codecOf (1, 2, 3) 192) (construct 192 86 69 48 5 none (some []))
+      [.op .bytes, .hdr .sender 0, .op .getMessage]).2.getLast?
+    = (runH (codecOf (1, 2, 3) 192) (construct 192 86 69 48 5 none (some [])) [.op .getMessage]).2.getLast? := by
+  decide
+
+/-- a set-ecoMAX-parameter request serialised, re-addressed and given another version byte, serialised again -/
+example :
+    (runH (codecOf (0, 0, 0) 51) (construct 51 69 86 48 5 none (some [("index", .int 1), ("value", .int 2)]))
+      [.op .bytes, .hdr .rcpt 0, .hdr .ever 7, .op .bytes]).2
+    = [.bytes (encode ⟨51, 69, 86, 48, 5, [1, 2]⟩), .done, .done, .bytes (encode ⟨51, 0, 86, 48, 7, [1, 2]⟩)] := by
+  decide
 
 /-! concrete instance: a set-ecoMAX-parameter request re-used for three values -/
 example :
